@@ -165,6 +165,12 @@ impl<'a> Gen<'a> {
     }
     /// an element reference that resolves in a KML plan: a created handle, a parameter or an id
     pub fn plan_ref(&mut self) {
+        if self.naughty && self.chance(1, 3) {
+            // a handle nothing creates or binds: only whole-plan validation can refuse it
+            self.t("?ghost");
+            self.feat("violation:unbound-handle");
+            return;
+        }
         let s = if !self.handles.is_empty() && self.chance(1, 2) {
             format!("?{}", self.r.pick(&self.handles.clone()))
         } else if self.chance(1, 2) {
@@ -842,7 +848,8 @@ impl<'a> Gen<'a> {
 
     // ---- KML ----------------------------------------------------------------------------------
     fn new_handle(&mut self) -> String {
-        let h = if self.naughty && !self.handles.is_empty() && self.chance(1, 3) {
+        let h = if self.naughty && !self.handles.is_empty() && self.chance(1, 2) {
+            self.feat("violation:duplicate-handle");
             self.handles[0].clone()
         } else {
             format!("h{}", self.handles.len())
@@ -1215,6 +1222,11 @@ impl<'a> Gen<'a> {
         }
     }
     fn plan_ref_value(&mut self) {
+        if self.naughty && self.chance(1, 3) {
+            self.t("?ghost");
+            self.feat("violation:unbound-handle");
+            return;
+        }
         if !self.handles.is_empty() && self.chance(1, 2) {
             let h = self.r.pick(&self.handles.clone()).clone();
             self.t(&format!("?{h}"));
@@ -1277,7 +1289,7 @@ impl<'a> Gen<'a> {
     }
     pub fn kml(&mut self) {
         self.feat("kml");
-        if self.chance(1, 2) {
+        if self.chance(1, 2) || self.naughty {
             self.feat("kml:mutate-block");
             self.kw("MUTATE");
             self.t("{");
